@@ -62,14 +62,23 @@ class SolveRecorder:
         self.sla.spsolve = self.orig
 
 
-def run_case(c):
+def attr_values(container, name, n, cast=float):
+    if not container.has_attribute(name):
+        return [cast(0)] * n
+    a = container.get_attribute(name)
+    return [cast(a[i]) for i in range(n)]
+
+
+def run_case(c, mesh=None):
+    """one field computation + flag_singularities; `mesh`: the mesh object of a sequence (earlier fields were computed and
+    flagged on it), else a fresh one is built"""
     import mouette as M
     from mouette import framefield as ff
     from mouette import operators
     from mouette.processing import connection as conn_mod
     out = {}
     np.random.seed(int(c.get("seed", 0)) % (2 ** 31))
-    m = build_mesh(c["V"], c["F"])
+    m = build_mesh(c["V"], c["F"]) if mesh is None else mesh
     elem, order = c["elem"], int(c["order"])
     cotan = bool(c.get("cotan", True))
     kw = dict(order=order, features=bool(c["features"]), n_smooth=int(c["n_smooth"]), verbose=False, use_cotan=cotan)
@@ -128,7 +137,14 @@ def run_case(c):
         out["fixed"] = [i for i in range(nV) if i in fv]
         out["free"] = [i for i in range(nV) if i not in fv]
     # singularities
+    out["prev_singuls"] = (attr_values(m.vertices, "singuls", nV) if elem == "faces" else attr_values(m.faces, "singuls", nF))
     fld.flag_singularities()
+    if elem == "vertices":
+        from mouette import attributes
+        cv = attributes.parallel_transport_curvature(m, fld.conn, persistent=False)
+        out["curv"] = [float(cv[f]) for f in range(nF)]
+        ang = m.edges.get_attribute("angles")
+        out["rot"] = [float(ang[e]) for e in range(len(m.edges))]
     if elem == "faces":
         out["defect"] = [float(fld.defect[v]) for v in range(nV)]
         ang = m.edges.get_attribute("angles")
@@ -149,6 +165,18 @@ def main():
     payload = json.load(sys.stdin)
     res = []
     for c in payload["cases"]:
+        if "seq" in c:
+            # a sequence of field computations on ONE mesh object (same V, F), flagging after each
+            steps, mesh = [], None
+            for st in c["seq"]:
+                try:
+                    if mesh is None:
+                        mesh = build_mesh(st["V"], st["F"])
+                    steps.append({"ok": True, "obs": run_case(st, mesh)})
+                except Exception as ex:  # noqa
+                    steps.append({"ok": False, "error": "%s: %s" % (type(ex).__name__, ex), "trace": traceback.format_exc()[-1500:]})
+            res.append({"ok": True, "steps": steps})
+            continue
         try:
             res.append({"ok": True, "obs": run_case(c)})
         except Exception as ex:  # noqa
